@@ -145,6 +145,29 @@ CHECKS = {
     note="Trusted: as C05; goroutine leak measured by process goroutine count inside the bubble.",
     technique="TLA+ pipeline/back-off models + TLC; fault-schedule replay in virtual time; TLC trace validation",
     ref="5.16"),
+ "C06": dict(
+    level="model_checking",
+    text="TLC exhaustively checks store-operation-level models of a QTransform controller (LifecycleQT.tla) and of a Transform "
+         "controller with and without input finalizers (LifecycleT.tla) against an external actor that creates / updates / tears "
+         "down / destroys / re-creates the input and places foreign finalizers: `quiescent => outputs are the image of the "
+         "running inputs, no orphan except held by a foreign finalizer, torn-down inputs released`. The real transform / "
+         "qtransform controllers (6 option configurations) run on the real runtime in a synctest bubble while TLC-generated "
+         "external histories are executed, optionally with the transform held in flight or failing transiently; the quiet "
+         "snapshot is judged by TLC (TraceLifecycle.tla, JUDGE=C06).",
+    note="Trusted: TLC, synctest quiescence, C05 (notification fairness). Known finding (ignore-teardown options) listed in "
+         "known_findings.json and reproduced by the model config MC_LifecycleQT_ignore.",
+    technique="TLA+ controller lifecycle models + TLC; history replay on the real controllers; TLC trace validation",
+    ref="5.6"),
+ "C07": dict(
+    level="model_checking",
+    text="Same models and executions as C06, judged on the totally ordered log of successful writes recorded by a proxy between "
+         "everybody and the store: after EVERY write, an output owned by the controller exists only while its input exists and "
+         "carries the controller's finalizer, and an output is destroyed only from tearing-down phase with no finalizers "
+         "(TraceLifecycle.tla, JUDGE=C07); the models check FinBeforeOut as an invariant.",
+    note="Trusted: the recording proxy serialises writes around the store call (commit order). Cleanup controllers "
+         "(cleanup.NewController) are not driven yet. Known finding for the ignore-teardown options is listed.",
+    technique="TLA+ controller lifecycle models + TLC; write-log recording; TLC trace validation after every write",
+    ref="5.7"),
 }
 
 NOT_YET = "check not built yet in this round (planned, see DESIGN.md section 5)"
